@@ -479,6 +479,52 @@ func main() {
 			return map[string]any{"base": cases[i].Base, "mutations": cases[i].Mutations, "oracle_valid": cases[i].Oracle, "outcome": res.Outcome}
 		})
 	})
+	// one in-memory Spec object holding two documents in turn: validated, overwritten in place,
+	// validated again (every ordered pair of a few valid and invalid typed documents); the second
+	// verdict is the second document's
+	{
+		var typedCases []Case
+		nv, ni := 0, 0
+		for _, c := range cases {
+			if c.typed == nil || c.typedOracle == nil || len(c.JSON) > 5000 || malformedAnnotations(c.Doc) {
+				continue
+			}
+			if *c.typedOracle && nv < 3 {
+				nv++
+				typedCases = append(typedCases, c)
+			} else if !*c.typedOracle && ni < 6 {
+				ni++
+				typedCases = append(typedCases, c)
+			}
+		}
+		nObj := 0
+		for _, a := range typedCases {
+			for _, b := range typedCases {
+				for name, s := range map[string]*schema.Schema{"builtin": sc.builtin, "external-copy": sc.external} {
+					obj := new(specs.Spec)
+					_ = json.Unmarshal([]byte(a.JSON), obj)
+					first := s.Validate(obj)
+					*obj = specs.Spec{}
+					_ = json.Unmarshal([]byte(b.JSON), obj)
+					second := s.Validate(obj)
+					nObj++
+					r.AddEvals(1, 1)
+					if verdictOf(first) != *a.typedOracle || verdictOf(second) != *b.typedOracle {
+						cl := func(c Case) string {
+							if len(c.Mutations) > 0 {
+								return c.Mutations[0].Class
+							}
+							return "base"
+						}
+						r.Fail(&hx.Failure{Sig: fmt.Sprintf("same-object-validated-twice:%s:first-valid=%v:second-valid=%v:got=%v,%v", name, *a.typedOracle, *b.typedOracle, verdictOf(first), verdictOf(second)),
+							Msg:  fmt.Sprintf("%s.Validate on one Spec object holding [%s] and then, overwritten in place, [%s]: verdicts %v then %v, draft-07 verdicts of the two documents %v then %v", name, cl(a), cl(b), verdictOf(first), verdictOf(second), *a.typedOracle, *b.typedOracle),
+							Case: map[string]any{"first_document": json.RawMessage(a.JSON), "second_document": json.RawMessage(b.JSON)}, Rank: int64(len(a.JSON) + len(b.JSON))})
+					}
+				}
+			}
+		}
+		r.Extra["one_object_validated_twice"] = nObj
+	}
 	// histories of installed schemas (process-wide state: run one at a time, after the sweep)
 	var picked []Case
 	nValid, nInvalid := 0, 0
@@ -538,7 +584,7 @@ func main() {
 	r.Extra["installed_schema_histories"] = map[string]any{"histories": len(hist), "documents": len(picked), "evaluations": nInst}
 	r.Rule = fmt.Sprintf("%d base documents + every single defect, every type confusion at every member position and 11 numeric boundary values (-1, 2^32-1, 2^32, int64 max, 2^63, int64 min, below, 1.5, 1.0, 1e3, 0) at every member position: %d JSON documents (+%d documents denoted by the in-memory Specs they decode to); "+
 		"each through ValidateData (JSON, YAML flow, YAML block), ValidateFile (.json, .yaml), ValidateReader, ReadAndValidate, ValidateType/Validate for the builtin schema and for a copy of schema.json loaded by path next to defs.json, and through the 'none' and nil schemas. "+
-		"Then every history of <=3 schema.Set calls over {builtin, none, nil, external copy} (and the untouched initial state) with the package-level entry points judged after every step against the schema installed last, on 8 documents. " +
+		"One in-memory Spec object holding two documents in turn (all ordered pairs of 9 typed documents). Then every history of <=3 schema.Set calls over {builtin, none, nil, external copy} (and the untouched initial state) with the package-level entry points judged after every step against the schema installed last, on 8 documents. " +
 		"Oracle: Python jsonschema Draft7Validator on the current /repo/schema files; JSON==YAML for every document; equality with the oracle when annotations are absent or well-formed; no-op schemas accept everything. Distinct by construction; all non-trivial",
 		len(bases), len(cases), nTyped)
 	r.Traces.Add(int64(len(cases) + nTyped))
